@@ -231,7 +231,17 @@ func (r *rewriter) rewriteLock(call *ast.CallExpr) {
 		return
 	}
 	fn, ok := r.pkg.TypesInfo.Uses[sel.Sel].(*types.Func)
-	if !ok || fn.Pkg() == nil || fn.Pkg().Path() != "sync" {
+	if !ok || fn.Pkg() == nil {
+		return
+	}
+	if fn.Pkg().Path() == "sync/atomic" {
+		// a yield point before every atomic operation:
+		// x.Load()  =>  simhook.Pre(x.Load)()
+		r.wrap(call.Fun, "simhook.Pre(", ")")
+		r.sum.LockSites++
+		return
+	}
+	if fn.Pkg().Path() != "sync" {
 		return
 	}
 	sig, ok := fn.Type().(*types.Signature)
